@@ -5,7 +5,7 @@ ROOT = os.path.dirname(os.path.dirname(os.path.abspath(__file__)))
 BASELINE = "cd /repo && /venv/bin/python -m pytest -ra -q -p no:cacheprovider --timeout=900 --continue-on-collection-errors"
 
 NOTE = ("Trusted: Coq 8.16.1 kernel; no axioms (Print Assumptions gate: closed under the global context); "
-        "harness/py2coq.py translator + Model/PyLib.v for the functions tied by translation; the correspondence harness "
+        "harness/py2coq.py and harness/py2coq_tree.py translators + Model/PyLib.v, Model/TreeLib.v (the Coq reading of the Python primitives they emit) for the functions tied by translation; the correspondence harness "
         "(generators, Recorder logic, canonicalisation) for everything tied by differential evaluation of the model "
         "inside Coq (vm_compute) against /repo's working tree; Python runtime semantics (dict order, sort stability) modelled, not verified.")
 
@@ -44,8 +44,11 @@ CLAIMED["C10"] = dict(
          "EVERY non-history region active and done) for all well-formed machines and configurations; a final state raises at most one done event, for "
          "the nearest done ancestor declaring onDone (C10_fire_once/_nearest); completion is idempotent with machine-level output precedence; sends are "
          "inert after completion on both engines. Stating the spec exposed a genuine defect (nested parallel regions), repaired by a fix: commit. "
+         "TIE T: _is_state_done is re-translated from the current source on every run (coq/Gen/GenGeom.v: recursion on explicit fuel, the region "
+         "loop with its early returns as a short-cutting fold) and proved equal to the model's is_done for every fuel "
+         "(C10_doneness_is_the_source), so the spec theorem is a theorem about the source function (C10_source_doneness_spec). "
          "Tied to the code by K-macro on completion machines (all region completion orders, un-complete / re-complete, sends after completion).",
-    technique="Coq proof (fuel induction against an inductive spec) + vm_compute correspondence",
+    technique="Coq proof (fuel induction against an inductive spec) over source-translated Gallina (tie T) + vm_compute correspondence",
     design_ref="DESIGN.md section 5 C10")
 
 CLAIMED["C04"] = dict(
@@ -114,11 +117,14 @@ CLAIMED["C11"] = dict(
          "history target expands to its default target / the parent's initial child / the parallel parent itself; a visited deep target to the "
          "remembered leaves, a shallow one to the remembered children; a snapshot round trip keeps the history; every state the target expands to "
          "is active when the transition completes (C11_restored_states_active) and the configuration it leaves is legal - one leaf per region, the "
-         "restored one (C11_restore_is_legal, from the history-store invariant C11_store_consistent). Partial: that the restored sub-configuration "
+         "restored one (C11_restore_is_legal, from the history-store invariant C11_store_consistent). TIE T: _resolve_history_target and "
+         "_record_history are re-translated from the current source on every run (coq/Gen/GenGeom.v) and proved equal to the model's "
+         "resolve_history (as functions) and record_history (entry by entry of the store, for machines with distinct dotted-path ids) - "
+         "C11_resolve_is_the_source, C11_record_is_the_source. Partial: that the restored sub-configuration "
          "equals the remembered one state by state, and 'each restored state entered once', are decided by the monitor. Tied to the code by K-macro "
          "on history machines (shallow/deep x compound/parallel parents x nested x defaults x never/once/repeatedly visited) and an independent "
          "restore oracle in the monitor.",
-    technique="Coq proof over executable history model + vm_compute correspondence",
+    technique="Coq proof over executable history model, tied to source-translated Gallina by bridge theorems (tie T) + vm_compute correspondence",
     design_ref="DESIGN.md section 5 C11")
 CLAIMED["C12"] = dict(
     category="proof",
@@ -166,6 +172,12 @@ CLAIMED["C01"] = dict(
          "recorded findings F35-F37, found while proving the history case). TIE T: _is_descendant, the string test on ids by which the engine "
          "decides ancestry, is re-translated from source on every run and proved equal to the model's tree test for machines with distinct "
          "dotted-path ids (C01_ancestry_oracle_is_the_source; the condition is evaluated in Coq for the machines of this check). "
+         "TIE T (geometry): the state-tree functions the engine decides transitions with - _find_transition_domain, _compute_states_to_exit, _get_path_to_state, _get_ancestors, _resolve_history_target, _record_history, _is_state_done (and _is_descendant) - are RE-TRANSLATED from the current source on every run by harness/py2coq_tree.py (a fail-closed translator for tree-walking Python: while-loops over parent chains become Fixpoints on explicit fuel, sets become duplicate-free lists, early returns become short-cutting folds) into coq/Gen/GenGeom.v and proved EQUAL to the model functions the theorems are stated over (Proofs/GeomBridge.v); "
+         "here: C01_domain_is_the_source, C01_exit_set_is_the_source (+ _of_whole_machine), C01_entry_path_is_the_source, and - composing them "
+         "the way _execute_transition does - C01_transition_is_the_source: one external transition run with the SOURCE's domain / exit set / entry "
+         "path / history expansion / combined path equals the model's exec_external out of every legal configuration, so legality preservation "
+         "holds of the transition as the source computes it (C01_source_transition_preserves_legality, "
+         "C01_source_history_transition_preserves_legality, C01_source_root_transition_restarts). "
          "Built from C01_initial_configuration_legal (induction over the default descent), C01_transition_effect (closed formula: configuration "
          "after a transition = before minus the exit list plus the entered set), C01_transition_preserves_legality (a replacement lemma over the "
          "state tree, for compound and parallel domains) and C01_event_preserves_legality (also when a transition aborts: rollback); "
@@ -175,7 +187,7 @@ CLAIMED["C01"] = dict(
          "target is not a proper descendant of its parent is outside the theorems and decided by the correspondence (legality evaluated in Coq at "
          "every hook / subscriber / snapshot point of every generated run: exhaustive small trees x all source/target pairs x both engines x pure "
          "API) - which is how the defect repaired by the latest fix: commit (history child of an active parallel state targeted from inside it) was found.",
-    technique="Coq proof (induction over runs: default descent, transition effect formula, subtree / tree replacement lemmas, history-store invariant) + source-translated ancestry oracle (tie T) + vm_compute correspondence (K-macro) + monitor",
+    technique="Coq proof (induction over runs: default descent, transition effect formula, subtree / tree replacement lemmas, history-store invariant) + source-translated transition geometry and ancestry oracle (tie T: py2coq / py2coq_tree, bridge theorems) + vm_compute correspondence (K-macro) + monitor",
     design_ref="DESIGN.md section 5 C01 and section A.3")
 CLAIMED["C03"] = dict(
     category="proof",
@@ -189,9 +201,11 @@ CLAIMED["C03"] = dict(
          "states are left, no state is entered while active, and a state is active afterwards iff it (was active and was not left) or was entered, "
          "i.e. entries minus exits = change in activity; C03_history_exactly_once_accounting: the same for transitions to history pseudo-states "
          "(the entered states form a tree below the domain whose entered list is duplicate-free), under the history-store invariant every run "
-         "maintains (former finding F21 there is repaired in /repo). Partial: the theorems are per transition (every transition of every run, by the "
+         "maintains (former finding F21 there is repaired in /repo). TIE T (geometry): the state-tree functions the engine decides transitions with - _find_transition_domain, _compute_states_to_exit, _get_path_to_state, _get_ancestors, _resolve_history_target, _record_history, _is_state_done (and _is_descendant) - are RE-TRANSLATED from the current source on every run by harness/py2coq_tree.py (a fail-closed translator for tree-walking Python: while-loops over parent chains become Fixpoints on explicit fuel, sets become duplicate-free lists, early returns become short-cutting folds) into coq/Gen/GenGeom.v and proved EQUAL to the model functions the theorems are stated over (Proofs/GeomBridge.v); "
+         "here: C03_domain_is_the_source, C03_exit_set_is_the_source, C03_entry_path_is_the_source, C03_transition_is_the_source (the whole "
+         "transition with the source's geometry = the model's, out of a legal configuration). Partial: the theorems are per transition (every transition of every run, by the "
          "C01 run invariant); timer / service non-interference of sibling regions follows only for what is cancelled.",
-    technique="Coq proof (log-segment invariants through entry / exit / actions; sortedness; entered-set characterisation over the state tree) + vm_compute correspondence (K-macro) + monitor",
+    technique="Coq proof (log-segment invariants through entry / exit / actions; sortedness; entered-set characterisation over the state tree) + source-translated transition geometry (tie T) + vm_compute correspondence (K-macro) + monitor",
     design_ref="DESIGN.md section 5 C03")
 CLAIMED["C05"] = dict(
     category="proof",
